@@ -18,6 +18,7 @@ fixed-point fields (16.16, 8.24) their stored integers: the float conversions ar
 import PsdVerif.Lemmas.Payload3Samples
 import PsdVerif.Model.Payload3Tables
 import PsdVerif.Model.PayloadLayerInfo
+import PsdVerif.Props.C01Payload
 
 namespace PsdVerif.C01Payload3
 open PsdVerif PsdVerif.Codec PsdVerif.Psd PsdVerif.Payload PsdVerif.Payload.PCodec PsdVerif.Payload3
@@ -183,6 +184,82 @@ theorem image_resource_descriptor_block (tb : Descriptor.Tables) : ResourcePaylo
 payloads: the codecs of Props/C01Payload.lean -/
 theorem image_resource_color : ResourcePayload Color.codec := resourcePayload_of Color.rt.atEnd
 theorem image_resource_string_element : ResourcePayload (StringElement.codec 1 1) := resourcePayload_of (StringElement.rt 1 1).atEnd
+
+/-! ### the typed image resource, the typed resource section, the document with typed resources -/
+
+/-- `ImageResource.read` *with* the payload dispatch returns the resource with its typed payload, anywhere in a stream -/
+theorem typed_image_resource_roundtrip (tb : Descriptor.Tables) (r : TRes) (hwf : r.WF tb) (bs pre post : B)
+    (henc : r.enc tb = .ok bs) : TRes.dec tb (pre ++ bs ++ post) pre.length = .ok (r, pre.length + bs.length) := by
+  unfold TRes.enc at henc
+  split at henc
+  · cases henc; exact TRes.dec_at tb hwf (At.intro pre _ post)
+  · cases henc
+
+theorem typed_image_resource_written_is_length (tb : Descriptor.Tables) (r : TRes) (bs : B) (henc : r.enc tb = .ok bs) :
+    r.encP tb = (bs, bs.length) := by
+  unfold TRes.enc at henc
+  split at henc
+  · cases henc; exact TRes.encP_eq tb r
+  · cases henc
+
+/-- the bytes of a typed resource are the bytes of its skeleton view, and the skeleton reader returns that view -/
+theorem typed_resource_is_skeleton_resource (tb : Descriptor.Tables) (r : TRes) (hwf : r.WF tb) (pre post : B) :
+    Psd.Resource.dec (pre ++ r.encT tb ++ post) pre.length = .ok (r.flat tb, pre.length + (r.encT tb).length) :=
+  Psd.Resource.dec_at hwf.1 (At.intro pre _ post)
+
+/-- `ImageResources.read` with typed items -/
+theorem typed_image_resources_roundtrip (tb : Descriptor.Tables) (rs : List TRes) (hflat : resourcesWF (rs.map (TRes.flat tb)))
+    (hwf : ∀ r ∈ rs, r.WF tb) (pre post : B) :
+    tresourcesDec tb (pre ++ tresourcesT tb rs ++ post) pre.length = .ok (rs, pre.length + (tresourcesT tb rs).length) :=
+  tresourcesDec_at tb hflat hwf (At.intro pre _ post)
+
+/-- the whole file with typed resources and typed document-level blocks: reading what `PSD.write` emitted returns the
+document - every registered resource as an object of its class, down to the slices and their descriptors - as the writer
+left it -/
+theorem psd_roundtrip_resources (tb : Descriptor.Tables) (pad : Nat) (x : ResPSD) (hwf : x.WF tb pad) (bs : B)
+    (henc : ResPSD.enc tb pad x = .ok bs) : ResPSD.read tb bs 0 = .ok (x.refresh, bs.length) := by
+  rw [ResPSD.enc_ok tb henc]
+  exact ResPSD.read_encT tb hwf
+
+theorem psd_rewrite_identical_resources (tb : Descriptor.Tables) (pad : Nat) (x : ResPSD) (hwf : x.WF tb pad) (bs : B)
+    (henc : ResPSD.enc tb pad x = .ok bs) (x' : ResPSD) (n : Nat) (hread : ResPSD.read tb bs 0 = .ok (x', n)) :
+    ResPSD.enc tb pad x' = .ok bs := by
+  rw [psd_roundtrip_resources tb pad x hwf bs henc] at hread
+  cases hread
+  rw [ResPSD.enc_refresh, henc]
+
+/-- the typed theorem extends `psd_roundtrip_deep`: same bytes, and the deep reader returns the view with the resource
+payloads as bytes -/
+theorem resources_refine_deep (tb : Descriptor.Tables) (pad : Nat) (x : ResPSD) (hwf : x.WF tb pad) (bs : B)
+    (henc : ResPSD.enc tb pad x = .ok bs) :
+    DeepPSD.enc pad (x.flat tb) = .ok bs ∧ DeepPSD.read bs 0 = .ok ((x.flat tb).refresh, bs.length) := by
+  have h1 : DeepPSD.enc pad (x.flat tb) = .ok bs := by
+    unfold ResPSD.enc at henc
+    split at henc
+    · exact henc
+    · cases henc
+  exact ⟨h1, C01Payload.psd_roundtrip_deep pad _ hwf.1 bs h1⟩
+
+/-- every id of `image_resources.TYPES` is dispatched to the class registered for it -/
+theorem key_class_tied :
+    Generated.Payload3.unit7Registry.all (fun r => (keyClass r.1).map RClass.name == some r.2) = true ∧ keyClass 4000 = none := by
+  decide +kernel
+
+theorem typed_samples_wf : ResPSD.WF Samples.rtb 4 Samples.resDoc ∧ ResPSD.payloadFits Samples.rtb Samples.resDoc := by decide +kernel
+
+example : ∃ bs, ResPSD.enc Samples.rtb 4 Samples.resDoc = .ok bs ∧ ResPSD.read Samples.rtb bs 0 = .ok (Samples.resDoc.refresh, bs.length) := by
+  have hd : DeepPSD.enc 4 (Samples.resDoc.flat Samples.rtb) = .ok ((Samples.resDoc.flat Samples.rtb).encT 4) := by decide +kernel
+  have henc : ResPSD.enc Samples.rtb 4 Samples.resDoc = .ok ((Samples.resDoc.flat Samples.rtb).encT 4) := by
+    unfold ResPSD.enc; rw [if_pos typed_samples_wf.2, hd]
+  exact ⟨_, henc, psd_roundtrip_resources Samples.rtb 4 _ typed_samples_wf.1 _ henc⟩
+
+/-- (iii) raw bytes under a registered id are parsed as the class of the id; a typed payload under the id of another class
+is read as that other class -/
+theorem resource_payload_follows_the_id :
+    ¬ TRes.WF Samples.rtb Samples.rawUnderTypedKey ∧ ¬ TRes.WF Samples.rtb Samples.typedUnderOtherKey ∧
+      Descriptor.errorOf (TRes.dec Samples.rtb (TRes.encT Samples.rtb Samples.rawUnderTypedKey) 0) = some .ioError ∧
+      Descriptor.errorOf (TRes.dec Samples.rtb (TRes.encT Samples.rtb Samples.typedUnderOtherKey) 0) = some .assertionError := by
+  decide +kernel
 
 /-! ### non-vacuity -/
 
